@@ -227,7 +227,8 @@ func NewRegistry(s Shape, cancun bool) *Registry {
 }
 
 func init() {
-	log.SetDefault(log.NewLogger(log.DiscardHandler()))
+	// only log.Crit (which exits the process) is worth showing
+	log.SetDefault(log.NewLogger(log.NewTerminalHandlerWithLevel(os.Stderr, log.LevelCrit, false)))
 }
 
 func rules(cancun bool) params.Rules {
@@ -730,7 +731,16 @@ func (e *Env) StateID(root common.Hash) int {
 	return int(*id)
 }
 
-// RemoveAll removes a directory tree (helper for drivers).
-func RemoveAll(dir string) { os.RemoveAll(dir) }
+// ScratchDir creates a scratch directory for freezer files: on tmpfs when available (the
+// freezer fsyncs after every history write, which is slow on a shared disk and irrelevant
+// for the properties checked), else below the current directory. The caller removes it.
+func ScratchDir(prefix string) string {
+	for _, base := range []string{"/dev/shm", "."} {
+		if d, err := os.MkdirTemp(base, prefix); err == nil {
+			return d
+		}
+	}
+	panic("harness: no scratch directory")
+}
 
 var _ = bytes.Equal
